@@ -76,6 +76,9 @@ def main(argv):
         elif part is None:
             pr = {"ok": bool(r.get("ok")), "n": r.get("histories", r.get("evaluations", 0)),
                   "n_dis": r.get("n_disagreements", 0), "dis": r.get("disagreements", [])}
+        elif part not in (r.get("parts") or {}):
+            # the stage ran but could not get as far as this part (e.g. nothing to run because the build failed)
+            pr = {"ok": False, "broken": f"part {part} of {stage} was not evaluated (an earlier part of the stage failed)", "detail": None, "crash": None, "n": 0, "dis": []}
         else:
             q = r["parts"][part]
             dd = [d for d in q["dis"] if "props" not in d or pid in d["props"]]
@@ -132,7 +135,7 @@ def main(argv):
                 if r2.get("broken"):
                     continue
                 name = stage if part is None else f"{stage}:{part}"
-                dd = (r2.get("disagreements", []) if part is None else r2["parts"][part]["dis"])
+                dd = (r2.get("disagreements", []) if part is None else (r2.get("parts") or {}).get(part, {}).get("dis", []))
                 for d in dd:
                     if ("props" not in d or pid in d["props"]) and impl_level(name, d):
                         failing.append((name, dict(d, found_with_seed=seed + extra)))
